@@ -1,7 +1,7 @@
 (** Property C07 — collect(), next() and fast_forward() are the same run.
     Statements only; proofs in Run/RunFacts.v.  Every statement is for an arbitrary matcher. *)
 From Coq Require Import ZArith List Bool.
-From V Require Import Scan.ScanModel Run.RunLoop Run.RunFacts Match.Adjudicate Match.Ctl.
+From V Require Import Scan.ScanModel Run.RunLoop Run.RunFacts Run.RunPrefix Match.Adjudicate Match.Ctl.
 Import ListNotations.
 Open Scope Z_scope.
 
@@ -37,6 +37,23 @@ Theorem C07_partition : forall (C X : Type) (m : rs X -> line C -> rs X * bool) 
 Proof. exact fold_partition. Qed.
 Print Assumptions C07_partition.
 
+
+(** collect(nexts=k), k >= 1, for every matcher: it returns the first k lines of collect(); and the trace, the unmatched
+    lines and the whole run state it leaves (up to the frozen flag finalize() sets) are those of collect() on the file cut
+    after record j — the record that gave the k-th line when the file has k lines to give: nothing belonging to a later
+    record has happened. *)
+Theorem C07_collect_nexts : forall (C X : Type) (m : rs X -> line C -> rs X * bool) c x0 (recs : list (line C)) k, (0 < k)%nat ->
+  let rn := collect_n C X m k c x0 recs in
+  let ra := collect C X m c x0 recs in
+  returned C X rn = firstn k (returned C X ra) /\
+  exists j, (j <= length recs)%nat /\
+    let rp := collect C X m c x0 (firstn j recs) in
+    trace C X rn = trace C X rp /\ returned C X rn = returned C X rp /\ unmatched C X rn = unmatched C X rp /\
+    set_frozen X (st C X rn) = set_frozen X (st C X rp) /\
+    ((k <= length (returned C X ra))%nat ->
+       length (returned C X rn) = k /\ exists t e, trace C X rp = t ++ [e] /\ ev_returned e = true).
+Proof. intros C X m c x0 recs k. exact (collect_n_prefix C X m (with_collecting c true) x0 recs k). Qed.
+Print Assumptions C07_collect_nexts.
 
 (** a concrete run (the control fragment of Match/Ctl.v): [ push("s1", line_number())  eq.nocontrib(line_number(), 2) -> stop() ] over
     four records, scan 1*: collect(), next() and fast_forward() stop on line 2, return the same two lines and leave the same state;
